@@ -5,7 +5,7 @@
    UpdateMaxProbe never under-approximates, the growth policy does not shrink / probing reaches every bucket,
    CalcCapacity <= physical size); they are proved below for the kinds used by the extracted model. *)
 From Coq Require Import ZArith List Bool Permutation.
-From C11 Require Import GrowModel GenTie GenGrow GenFull GenFullP4 GenMove GenSame GenFacts GenFind GenClear TableRel.
+From C11 Require Import GrowModel GenTie GenGrow GenFull GenFullP4 GenMove GenSame GenFacts GenFind GenClear TableRel RemoveIfInterp.
 Import ListNotations.
 Local Open Scope Z_scope.
 
@@ -817,6 +817,13 @@ Theorem C11_gen_clear_is_hclear :
            cap' = capacity B s /\ (exists t : table B, hd_error (gens B s) = Some t /\ gens B s' = [clearT B b0 wf0 t]))).
 Proof. exact gen_clear_is_hclear. Qed.
 Print Assumptions C11_gen_clear_is_hclear.
+
+(* Remove(filter) rests on the source.  The statements of HashSet::Remove(const ItemFilter&) are read off the clang AST on every run (astfacts.py -> Gen_RelocFacts.remove_filter_stmts: `initCount = GetCount(); iter = GetBegin(); while (!!iter) { if (itemFilter( *iter )) iter = Remove(iter); else ++iter; } return initCount - GetCount();`) and interpreted on the model state (RemoveIfInterp.v: the loop runs until the end iterator, the filter is applied to the item under the iterator, Remove(iter) = the modelled pvRemove -- generation through find_buckets, tremove, count - 1, iterator re-created at the hole and pvInc'ed --, ++iter = pv_inc).  The interpretation of the CURRENT source equals the hand model's hremove_if for every state and filter; C11_remove_if_any_state / C11_inv_step / C11_history_refines_set are theorems about hremove_if.  Hand-modelled primitives: Remove(iter), operator++ / GetBegin (iterator machine).  Swapping the branches, dropping the else, a different loop condition or return expression changes the generated list and breaks this proof. *)
+Theorem C11_remove_filter_is_interpreted_source :
+  forall (B : Type) (b0 : B) (wf0 : bool) (f : Z -> bool) (s : hset B),
+         interp_remove_filter B b0 wf0 f Gen_RelocFacts.remove_filter_stmts s = hremove_if B b0 wf0 s f.
+Proof. exact remove_filter_is_interpreted_source. Qed.
+Print Assumptions C11_remove_filter_is_interpreted_source.
 
 (* AST facts feeding the model.  The statements of HashSet::pvRelocateItems(Buckets ptr) are read off the clang AST on every run (props/C11/astfacts.py -> Gen_RelocFacts.worker_stmts, syntax RelocSyntax.cstmt) and INTERPRETED on the model's chain of tables (GenFacts.interp_worker: `nextBuckets = buckets->GetNextBuckets()`, `if (nextBuckets != nullptr) { pvRelocateItems(nextBuckets); buckets->ExtractNextBuckets(); }` = recursive activation on the older chain, unlinked only after a normal return, the item loop = reloc_buckets (skeleton: Gen_HashSetMove), `buckets->Destroy` = the table disappears; a status other than MOk is an exception in flight and skips the remaining statements, there being no handler).  The interpretation of the CURRENT source equals the hand model's reloc_gens for every chain, newest table and failure schedule -- so every theorem above about interrupted migrations is about the interpreted statements: oldest generation first, the first failure leaves every table on the recursion path linked and not destroyed. *)
 Theorem C11_reloc_gens_is_interpreted_source :
